@@ -79,6 +79,9 @@ func c18RunOps(c *Ctx, l *lib.Lean, name string, ops []string) error {
 			}
 		}
 		return c18RunPeerHistory(c, l, c18PeerHistory{name: name, nhosts: nh, ngroups: ng, ops: ops})
+	case strings.HasPrefix(ops[0], "wire "):
+		_, _, err := c18WiredSession(c, l, "wire/"+name, ops, nil, 0)
+		return err
 	case strings.HasPrefix(ops[0], "conn "):
 		_, err := c18Lockstep(c, l, ops, "conn/"+name)
 		return err
@@ -104,6 +107,7 @@ func runC18(c *Ctx) error {
 	rng := lib.Rng(c.Seed, "c18")
 	c.R.Rule = "peers: seeded histories of add(in|out|pers, host, version-known)/done/ban/clock/addbad/shutdown/dump over 5 hosts in 3 groups (three hosts share a /16, one is RFC1918) (styles mix, fill = persistent peers up to MaxPeers, accident = peers without version/id 0) and 30 hosts x 7 groups (wide), each executed on the real handlers with real peer.Peer objects after a real version handshake over an in-memory connection, compared per op with the Lean model; non-trivial = at least one refusal for per-host limit, total limit or ban. " +
 		"connmgr lock-step: seeded scripts of dial ok/fail/address error/Disconnect/Remove/cancel on the real ConnManager (target 0..8, 1 ms retry, with and without BanAddress), counts compared with the Lean counter machine after every event; non-trivial = at least one failure and one disconnect. " +
+		"wired: the real server handlers own the real ConnManager (sp.connReq set as in outboundPeerConnected); seeded online scripts of dial ok (-> handshake -> admission; a refused outbound peer goes through handleDonePeerMsg) / fail / address error / peer done / inbound arrivals / ban / clock, target 1..4, compared per event with the composed Lean model (Model/PeerWire) and the oracle established + in flight = target; non-trivial = an outbound or inbound peer refused for ban, per-host or total limit. " +
 		"connmgr free-running: real interleavings, oracle only. The witnesses of the two repaired defects (corpus/C18: 25 refusals of one address with BanAddress; outbound peer answered with two version messages) run first."
 	l := c.lean()
 	defer l.Close()
@@ -242,7 +246,39 @@ func runC18(c *Ctx) error {
 		}
 	}
 
-	// (c) connection manager, free-running
+	// (c) admission handlers + connection manager wired together as in server.go, lock-step
+	type wplan struct {
+		style string
+		n     int
+		count int
+	}
+	wplans := []wplan{{"mix", 140, 40}, {"fill", 260, 1}}
+	if c.Thorough {
+		wplans = []wplan{{"mix", 400, 250}, {"fill", 500, 8}}
+	}
+wired:
+	for _, p := range wplans {
+		for i := 0; i < p.count; i++ {
+			ops, failed, err := c18WiredSession(c, l, "wire/"+p.style, nil, c18WiredGen(rng, p.style), p.n)
+			if err != nil {
+				return err
+			}
+			c.R.Count("wire:history:"+p.style, 1)
+			c.R.Count("wire:ops", len(ops))
+			if i == 0 {
+				k := len(ops)
+				if k > 12 {
+					k = 12
+				}
+				c.R.Sample(map[string]any{"history": "wire/" + p.style, "first_ops": ops[:k]}, 12)
+			}
+			if failed {
+				break wired // one failing history is enough; every further one would wait out the settle time
+			}
+		}
+	}
+
+	// (d) connection manager, free-running
 	nfree := 10
 	if c.Thorough {
 		nfree = 80
